@@ -173,18 +173,20 @@ class Runner:
     def reset(self, files: dict):
         """Bring the directory back to `files` cheaply (only what differs) and drop run droppings (logs/)."""
         want = {rel: _marker(c) for rel, c in files.items()}
+        # whatever earlier invocations left under logs/ goes first; logs entries of `files` are re-created below
+        logs = os.path.join(self.root, "logs")
+        if os.path.islink(logs) or os.path.isfile(logs):
+            os.remove(logs)
+        elif os.path.isdir(logs):
+            shutil.rmtree(logs, ignore_errors=True)
+        for rel in [r for r in self.state if r == "logs" or r.startswith("logs/")]:
+            self.state.pop(rel)
         for rel in list(self.state):
             if rel not in want:
                 self._put(rel, None)
         for rel in sorted(want):
             if self.state.get(rel) != want[rel]:
                 self._put(rel, files[rel])
-        logs = os.path.join(self.root, "logs")
-        if os.path.lexists(logs):
-            if os.path.isdir(logs):
-                shutil.rmtree(logs, ignore_errors=True)
-            else:
-                os.remove(logs)
 
     def apply_write(self, op):
         self._put(op["path"], op.get("content"))
@@ -200,10 +202,12 @@ class Runner:
             raise
         if any(op["op"] == "cli" for op in ops):
             logs = os.path.join(self.root, "logs")
-            if os.path.isdir(logs) and not os.path.islink(logs):
-                shutil.rmtree(logs, ignore_errors=True)
-            elif os.path.lexists(logs) and "logs" not in self.state:
+            if os.path.islink(logs) or os.path.isfile(logs):
                 os.remove(logs)
+            elif os.path.isdir(logs):
+                shutil.rmtree(logs, ignore_errors=True)
+            for rel in [r for r in self.state if r == "logs" or r.startswith("logs/")]:
+                self.state.pop(rel)
         # keep our idea of the directory in step with what the child's write ops did
         for op in ops:
             if op["op"] == "write":
